@@ -744,6 +744,8 @@ class Streams:
                 self.prelude[e[1]] = e[2]
             elif k == "add":
                 self.items.setdefault(e[1], []).append((e[2], e[3]))
+            elif k == "crash":
+                raise RuntimeError("harness crashed on a case:\n%s\ncase: %s" % (e[1], str(e[2])[:600]))
 
     def flush(self):
         run = self.run
@@ -757,8 +759,11 @@ class Streams:
                         keys.append(k)
             pre = "\n".join("Definition %s := %s." % (k, self.prelude[k]) for k in keys)
             shard = max(1, min(60, len(lst) // 14 + 1))
+            t_s = __import__("time").time()
             bad = run.coq_cases(stream, IMPORTS, pre, [t for t, _ in lst], CHECK_FN[stream], shard=shard,
                                 case_type=CASE_TYPE[stream])
+            run.log("stream %s: %d cases, %d prelude definitions, %.1fs" % (stream, len(lst), len(keys),
+                                                                           __import__("time").time() - t_s))
             if bad is None:
                 run.proof_ok = False
                 continue
@@ -1091,8 +1096,7 @@ def replay_refuted(run):
         bs = tzdays.boundaries(rs[0][0], rs[-1][0], "UTC")
         report(run, oracle_subdaily_days(dict(cs, as_class=True), bs, obs[1], "daily-data-class"),
                dict(cs, how="baseline-df", witness="C08_sparse_day_class_refuted"), short(obs), "c08.replay_refuted")
-        run.cov.setdefault("refuted_witnesses", {})["sparse_day_class"] = {
-            "day_1_value": None if obs[1][1] is None else float(obs[1][1]), "expected": None}
+        run.extra("sparse_day_class", {"day_1_value": None if obs[1][1] is None else float(obs[1][1]), "expected": None})
 
 
 def main():
@@ -1124,34 +1128,97 @@ def main():
     run.check_proofs("Properties/C08.v", ["Proofs/ResampleProofs.v"])
     run.ensure_models(["Model/ResampleRun.v", "Model/CasesLib.v"])
     st = Streams(run)
+    jobs = []
+    scale = float(os.environ.get("VERIF_SCALE", "1"))      # development aid only
+
+    def nn(pair):
+        return max(1, int(run.n(*pair) * scale))
     if run.replay:
         rep = json.load(open(run.replay))
-        cases = [rep["case"]]
+        jobs.append(("case", rep["case"]))
     else:
-        cases = []
         corpus = os.path.join(vlib.VERIF, "corpus", "C08.json")
         if os.path.exists(corpus):
-            cases += json.load(open(corpus))
-        for k in range(run.n(110, 6000)):
-            cases.append(gen_subdaily(run.rng, k))
-        for k in range(run.n(25, 1500)):
-            cases.append(gen_daily(run.rng, k))
-        for k in range(run.n(70, 4000)):
-            cases.append(gen_billing(run.rng, k))
-    for cs in cases:
-        cs = {k: v for k, v in cs.items() if k not in ("how", "absent_as_nan", "call", "witness", "as_class")}
-        if cs["kind"] == "sub":
-            process_subdaily(run, st, cs)
-        elif cs["kind"] == "daily":
-            process_daily(run, st, cs)
-        else:
-            process_billing(run, st, cs)
-    if not run.replay:
-        process_gran(run, st, run.rng, run.n(150, 5000))
-        replay_refuted(run)
+            jobs += [("case", c) for c in json.load(open(corpus))]
+        for k in range(nn(N_SUB)):
+            jobs.append(("case", gen_subdaily(run.rng, k)))
+        for k in range(nn(N_DAILY)):
+            jobs.append(("case", gen_daily(run.rng, k)))
+        for k in range(nn(N_BILL)):
+            jobs.append(("case", gen_billing(run.rng, k)))
+        ng = nn(N_GRAN)
+        for k in range(0, ng, 50):
+            jobs.append(("gran", min(50, ng - k)))
+        jobs.append(("refuted", None))
+    jobs = [(i, run.seed, kind, payload) for i, (kind, payload) in enumerate(jobs)]
+    import multiprocessing as mp
+    warm_imports()
+    nproc = int(os.environ.get("VERIF_PROCS", "14"))
+    if len(jobs) == 1 or nproc <= 1:
+        results = map(work, jobs)
+        for ev in results:
+            st.replay(ev)
+    else:
+        # expensive cases first (15-minute series dominate the 1-minute grid cost)
+        order = sorted(jobs, key=lambda j: -job_cost(j))
+        with mp.get_context("fork").Pool(nproc) as pool:
+            res = {}
+            for i, ev in pool.imap_unordered(work_indexed, order, chunksize=1):
+                res[i] = ev
+        for i in sorted(res):
+            st.replay(res[i])
     run.log("implementation done: %d evaluations" % run.cov["evaluations"])
     st.flush()
     run.finish()
+
+
+N_SUB = (110, 6000)
+N_DAILY = (25, 1500)
+N_BILL = (70, 4000)
+N_GRAN = (150, 5000)
+
+
+def warm_imports():
+    import opendsm.eemeter.common.data_processor_utilities  # noqa
+    import opendsm.eemeter.models.daily.data  # noqa
+    import opendsm.eemeter.models.billing.data  # noqa
+
+
+def job_cost(job):
+    _, _, kind, payload = job
+    if kind != "case":
+        return 5
+    if payload["kind"] == "sub":
+        return len(payload["slots"]) * payload["step"] / 60.0 * (3 if payload["step"] == 15 else 1)
+    if payload["kind"] == "billing":
+        return 400
+    return 50
+
+
+def work_indexed(job):
+    return job[0], work(job)
+
+
+def work(job):
+    i, seed, kind, payload = job
+    rec = Rec(vlib.sha([seed, i]))
+    try:
+        if kind == "case":
+            cs = {k: v for k, v in payload.items() if k not in ("how", "absent_as_nan", "call", "witness", "as_class")}
+            if cs["kind"] == "sub":
+                process_subdaily(rec, rec, cs)
+            elif cs["kind"] == "daily":
+                process_daily(rec, rec, cs)
+            else:
+                process_billing(rec, rec, cs)
+        elif kind == "gran":
+            process_gran(rec, rec, rec.rng, payload)
+        else:
+            replay_refuted(rec)
+    except Exception:  # noqa  - a crash of the harness on one case is an alarm, not a skip
+        import traceback
+        rec.events.append(("crash", traceback.format_exc()[-1500:], payload))
+    return rec.events
 
 
 if __name__ == "__main__":
